@@ -60,6 +60,7 @@ type task struct {
 	rfd, wfd  int           // race: baton pipe
 	yields    int64
 	opYields  int64
+	opStallNs int64
 	budget    int64
 	countdown int64
 	curOp     int
@@ -420,6 +421,7 @@ func (k *kernel) yieldBubble(site int) {
 		k.stallIdx++
 		k.event(evStall, int64(t.id), int64(site), d)
 		k.fingerprint(evStall, int64(site), d)
+		t.opStallNs += d
 		k.sleep(time.Duration(d), nil)
 	}
 	t.countdown--
@@ -635,10 +637,18 @@ func (k *kernel) yieldRace(site int) {
 }
 
 func (k *kernel) monitorRace(t *task, site int) {
-	if v := k.monitor(); len(v) > 0 && len(k.snapSw) < 8 {
-		for _, s := range v {
-			k.snapSw = append(k.snapSw, "at switch (task "+strconv.Itoa(t.id)+" op "+strconv.Itoa(t.curOp)+" site "+strconv.Itoa(site)+"): "+s)
-		}
+	if v := k.monitor(); len(v) > 0 {
+		k.recordSnap(t, site, v)
+	}
+}
+
+//go:norace
+func (k *kernel) recordSnap(t *task, site int, v []string) {
+	if len(k.snapSw) >= 8 {
+		return
+	}
+	for _, s := range v {
+		k.snapSw = append(k.snapSw, "at switch (task "+strconv.Itoa(t.id)+" op "+strconv.Itoa(t.curOp)+" site "+strconv.Itoa(site)+"): "+s)
 	}
 }
 
